@@ -25,6 +25,9 @@ type entry struct {
 	ID     int    `json:"id"`
 	Kind   string `json:"kind"` // body, query, path, header
 	Schema M      `json:"schema"`
+	// Method / At: for query parameters declared on the path item (default: GET /q<ID>)
+	Method string `json:"method,omitempty"`
+	At     string `json:"at,omitempty"`
 }
 
 const pyCross = `
@@ -65,7 +68,7 @@ func main() {
 	paths := M{}
 	add := func(kind string, s M) {
 		i := len(entries)
-		entries = append(entries, entry{i, kind, s})
+		entries = append(entries, entry{ID: i, Kind: kind, Schema: s})
 		resp := M{"200": M{"description": "ok"}}
 		switch kind {
 		case "body":
@@ -86,6 +89,34 @@ func main() {
 		for _, kind := range []string{"query", "path", "header"} {
 			add(kind, l)
 		}
+	}
+	// parameters declared on the path item and overridden by some of its operations: every operation
+	// validates against the declaration that is in force for it (its own if it re-declares the
+	// parameter, the path item's otherwise), whatever its siblings do and in whatever order they come
+	for i := 0; i+1 < len(leaves) && i < 60; i += 2 {
+		a, b := leaves[i], leaves[i+1]
+		at := fmt.Sprintf("/pi%d", i)
+		item := M{"parameters": []any{M{"name": "v", "in": "query", "required": true, "schema": a}, M{"name": "u", "in": "query", "schema": M{"type": "string"}}}}
+		for _, m := range []struct {
+			method string
+			params []any
+			schema M
+		}{
+			{"get", []any{M{"name": "v", "in": "query", "required": true, "schema": b}}, b}, // overrides, first
+			{"put", nil, a}, // inherits
+			{"post", []any{M{"name": "w", "in": "query", "schema": M{"type": "integer"}}, M{"name": "v", "in": "query", "required": true, "schema": b}}, b}, // overrides after a parameter of its own
+			{"delete", []any{M{"name": "w", "in": "header", "schema": M{"type": "string"}}}, a}, // inherits, with a parameter of its own
+			{"patch", []any{M{"name": "u", "in": "query", "schema": M{"type": "integer"}}}, a}, // overrides the other one
+		} {
+			id := len(entries)
+			entries = append(entries, entry{ID: id, Kind: "query", Schema: m.schema, Method: strings.ToUpper(m.method), At: at})
+			o := M{"operationId": fmt.Sprintf("op%d", id), "responses": M{"200": M{"description": "ok"}}}
+			if m.params != nil {
+				o["parameters"] = m.params
+			}
+			item[m.method] = o
+		}
+		paths[at] = item
 	}
 	spec := M{"openapi": "3.0.3", "info": M{"title": "t", "version": "1"}, "paths": paths, "components": M{"schemas": comps}}
 	data, _ := json.Marshal(spec)
